@@ -448,6 +448,36 @@ func checkC05(c *Ctx) {
 	_ = token.NoPos
 	// ---- C05.6 the two sites that decide the direction agree: halfPipe derives "upload" from its tag, Proxy chooses the
 	// tags - the pipe that reads from the client must be the one halfPipe takes for the upload, the other one not
+	// ---- C05.7 the relay's close is never abortive: SetLinger(0) makes Close discard what was written but not yet sent
+	r.Rule("C05.7", "no relay connection is closed with a zero linger interval", 1)
+	{
+		n := 0
+		for _, f := range c.funcsOfPkgs("pkg/station/lib", "cmd/application") {
+			eachInstr(f, func(in ssa.Instruction) {
+				ci, ok := in.(ssa.CallInstruction)
+				if !ok {
+					return
+				}
+				cc := ci.Common()
+				isLinger := calleeName(cc) == "(*net.TCPConn).SetLinger" || (cc.IsInvoke() && cc.Method.Name() == "SetLinger")
+				if !isLinger {
+					return
+				}
+				n++
+				arg := cc.Args[len(cc.Args)-1]
+				lo, hi, okI := evalInterval(arg, 0)
+				okk := okI && (lo > 0 || hi < 0)
+				r.Check(okk, "C05.7", fnName(f)+": SetLinger with a non-zero interval", in.Pos(), fnName(f), fmt.Sprintf("SetLinger(%s), value in [%d, %d]", firstN(pathOf(arg), 40), lo, hi),
+					"the connection is closed with SetLinger("+firstN(pathOf(arg), 40)+"), which may be 0: Close then aborts the connection and the kernel discards the bytes the relay already wrote but that were not sent yet - the tail of a transfer is lost while the counters say it was delivered")
+			})
+		}
+		if n == 0 {
+			r.OK("C05.7", "no SetLinger call in the station", token.NoPos, "the default close (unsent data is still delivered) applies")
+		}
+	}
+	// ---- C05.8 the DTLS client connection the relay reads from queues its messages by reference
+	r.Rule("C05.8", "the DTLS receive loop reads every message into its own buffer", 1)
+	checkQueuedBufferFresh(c, "C05.8")
 	r.Rule("C05.6", "Proxy's tags make halfPipe attribute the client->covert pipe to 'up' and the covert->client pipe to 'down'", 2)
 	{
 		hpf := c.P.Func(repoMod+"/pkg/station/lib", "", "halfPipe")
